@@ -15,7 +15,7 @@ static struct evm ring[64]; static int rcount; static struct evm cur; static boo
 static long next_id, last_started, processed, accepted, refused, failed_fast, opn, nops;
 static int script_left; static unsigned p_write; static prng_t HP;
 static bool hold_active; static long started_observed;
-static bool saw_action_for_cur;
+static bool saw_action_for_cur, cur_terminal_returned;
 
 static bool model_buffered(int cmd, int type)
 {
@@ -34,7 +34,7 @@ static void on_phase(int code)
                 if (pc != W.cmd[e.cmd] || W.at->unsolicited_fsm.cmd_type != (cat_cmd_type)e.type)
                         viol("C13", "not-fifo", "dequeued (cmd#%d, type %d) but the oldest accepted event is id %ld = (cmd#%d, type %d)", cmd_index(pc), (int)W.at->unsolicited_fsm.cmd_type, e.id, e.cmd, e.type);
                 if (e.id <= last_started) viol("C13", "order", "event id %ld started after id %ld", e.id, last_started);
-                last_started = e.id; cur = e; inprog = true; saw_action_for_cur = false; script_left = (int)pr_n(&HP, 3);
+                last_started = e.id; cur = e; inprog = true; saw_action_for_cur = false; cur_terminal_returned = false; script_left = (int)pr_n(&HP, 3);
                 CNT("events_dequeued");
         } else if (code == 4) {
                 if (inprog) { inprog = false; processed++; if (!saw_action_for_cur) { failed_fast++; CNT("events_failed_at_once"); } CNT("events_finished"); }
@@ -51,9 +51,13 @@ static cat_return_state policy(struct hcall *h)
         else if ((h->kind == K_READ) != (cur.type == CAT_CMD_TYPE_READ)) viol("C13", "handler-kind", "handler kind %d for an event of type %d", h->kind, cur.type);
         if (cat_get_processed_command(W.at, CAT_FSM_TYPE_UNSOLICITED) != h->cmd) viol("C13", "processed-command-inside-handler", "cat_get_processed_command does not name the event whose handler is running");
         if (inprog && cat_is_unsolicited_event_buffered(W.at, h->cmd, (cat_cmd_type)cur.type) != CAT_STATUS_BUSY) viol("C13", "not-buffered-inside-handler", "event in progress reported as not buffered inside its own handler");
+        if (inprog && cur_terminal_returned) viol("C13", "event-processed-twice", "the handler of event id %ld (cmd#%d) was invoked again after it had returned a terminal code", cur.id, cur.cmd);
         if (script_left > 0) { script_left--; return pr_pct(&HP, 50) ? CAT_RETURN_STATE_DATA_NEXT : CAT_RETURN_STATE_NEXT; }
-        unsigned r = pr_n(&HP, 5);
-        return r == 0 ? CAT_RETURN_STATE_OK : r == 1 ? CAT_RETURN_STATE_ERROR : r == 2 ? CAT_RETURN_STATE_PRINT_CMD_LIST_OK : CAT_RETURN_STATE_DATA_OK;
+        cur_terminal_returned = true;
+        unsigned r = pr_n(&HP, 9);           /* every terminal code an event handler can return; HOLD is left out (unspecified cell, DESIGN 3.2) */
+        if (r == 3 || r == 4) { hold_active = false; CNT("event_handlers_returning_hold_exit"); }      /* releases a held command, if any; a no-op otherwise */
+        return r == 0 ? CAT_RETURN_STATE_OK : r == 1 ? CAT_RETURN_STATE_ERROR : r == 2 ? CAT_RETURN_STATE_PRINT_CMD_LIST_OK : r == 3 ? CAT_RETURN_STATE_HOLD_EXIT_OK :
+               r == 4 ? CAT_RETURN_STATE_HOLD_EXIT_ERROR : r == 5 ? (cat_return_state)42 : CAT_RETURN_STATE_DATA_OK;
 }
 static void on_write(bool isA, char c, bool ok) { (void)c; (void)ok; if (!isA) { saw_action_for_cur = true; if (!inprog) viol("C13", "output-without-event", "event producer offered output while no event is in progress"); } }
 
@@ -130,11 +134,11 @@ void chk_run_case(uint64_t seed, long c, bool is_sweep)
         }
         if (case_failed()) return;
         sch_eager(&WS);
-        if (hold_active) { cat_hold_exit(W.at, CAT_STATUS_OK); hold_active = false; }
+        (void)cat_hold_exit(W.at, CAT_STATUS_OK); hold_active = false;
         long guard = 0, bound = 20000 + 400L * QCAP;
         for (;;) {
                 cat_status s = svc();
-                if (hold_active) { cat_hold_exit(W.at, CAT_STATUS_OK); hold_active = false; }
+                if (hold_active) { (void)cat_hold_exit(W.at, CAT_STATUS_OK); hold_active = false; }
                 if (s == CAT_STATUS_OK && INPOS >= INLEN) break;
                 if (++guard > bound) { inconclusive("no quiescence within the bound (C15's subject)"); return; }
         }
